@@ -2,7 +2,8 @@
 
 every sequence of N leaves drawn from {prepare_all, measure_all, ordinary gate}, with B
 non-crossing containers placed around any (possibly empty) contiguous run of leaves, each
-container one of {loop 0, loop 1, loop 2, sequential block, single-branch parallel block,
+container one of {loop 0/1/2 with a sequential body, loop 0/1/2 with a single-branch parallel body,
+sequential block, single-branch parallel block,
 macro call whose body is the run, subcircuit block around a run of ordinary gates}.
 Trees that Jaqal's block-nesting rules cannot express are skipped (a sequential block
 directly inside a sequential context, a subcircuit inside a parallel block or another
@@ -10,7 +11,7 @@ subcircuit, directly or through a macro).
 """
 
 LEAVES = ("P", "M", "G")
-CONTAINERS = ("loop0", "loop1", "loop2", "seq", "par1", "macro", "sub")
+CONTAINERS = ("loop0", "loop1", "loop2", "ploop0", "ploop1", "ploop2", "seq", "par1", "macro", "sub")
 
 
 def forests(n, b):
@@ -80,6 +81,15 @@ def render(items, reg="q"):
                     out.append(("parallel_block", ("sequential_block",) + tuple(seq_items(inner, True, in_sub))))
             elif ck.startswith("loop"):
                 out.append(("loop", int(ck[4:]), ("sequential_block",) + tuple(seq_items(inner, in_par, in_sub))))
+            elif ck.startswith("ploop"):
+                # a loop whose body is directly a (single-branch) parallel block
+                if contains_sub(inner):
+                    raise Illegal("subcircuit inside parallel")
+                if len(inner) == 1 and isinstance(inner[0], str):
+                    body = ("parallel_block", leaf(inner[0]))
+                else:
+                    body = ("parallel_block", ("sequential_block",) + tuple(seq_items(inner, True, in_sub)))
+                out.append(("loop", int(ck[5:]), body))
             elif ck == "macro":
                 if (in_par or in_sub) and contains_sub(inner):
                     raise Illegal("subcircuit (through a macro) inside parallel/subcircuit")
